@@ -216,9 +216,19 @@ def subinterval_amplification(d):
     power form; on a narrow interval the difference cancels and the relative
     error of an entry grows like b/(y2-y1) (the tables themselves are judged in
     C10 against the antiderivative's magnitude)."""
+    amp = 1.0
     if 'y1' in d and 'y2' in d:
-        return max(1.0, d['b'] / max(d['y2'] - d['y1'], 1e-300))
-    return 1.0
+        amp = max(1.0, d['b'] / max(d['y2'] - d['y1'], 1e-300))
+    return amp * order_amplification(d)
+
+
+def order_amplification(d):
+    """The power-form evaluation of the hierarchical functions loses digits with
+    the polynomial degree: above 8 terms the observed round-off of a matrix
+    entry grows roughly like (terms/8)^6 (thorough-tier calibration on the
+    unchanged tree: worst 5.6x the 8-term tolerance at 12 terms, 6000 cases);
+    (terms/8)^8 leaves a margin of about 4."""
+    return max(1.0, (max(d.get('m', 1), d.get('n', 1)) / 8.0)) ** 8
 
 
 # ----------------------------------------------------------------------------
